@@ -440,6 +440,7 @@ type MsgSpec struct {
 	Text    string
 	HdrEnd  int // offset after the blank line
 	Contacts []*NAExp
+	sane     bool
 }
 
 var hdrNames = map[int][]string{
@@ -453,7 +454,7 @@ var otherNames = []string{"Subject", "X-Foo", "Allow", "Supported", "Timestamp",
 func (r *Rng) HdrName(t int) string {
 	if t == 14 {
 		if r.P(30) {
-			return r.Alnum(1, 12)
+			return "X" + r.Alnum(1, 11) // (a random 1-letter name could be a compact form)
 		}
 		return r.ReCase(otherNames[r.N(len(otherNames))])
 	}
@@ -470,9 +471,11 @@ type MsgOpts struct {
 	CLen     int // -2: matching body, -1: none, >=0 literal
 	Reply    int // 0 request, 1 reply, -1 random
 	NoOther  bool
+	Sane     bool // no out-of-range numbers (the header block must be accepted)
 }
 
 func (r *Rng) genValue(t int, lws bool, method string, ms *MsgSpec) string {
+	sane := ms != nil && ms.sane
 	switch t {
 	case 1, 2:
 		return r.NameAddr(lws, false).Text
@@ -480,7 +483,7 @@ func (r *Rng) genValue(t int, lws bool, method string, ms *MsgSpec) string {
 		return r.Token(4, 20) + r.Pick("", "@"+r.Host())
 	case 4:
 		d := fmt.Sprint(r.N(1000000))
-		if r.P(10) {
+		if r.P(10) && !sane {
 			d = r.Digits()
 		}
 		sp := " "
@@ -508,7 +511,7 @@ func (r *Rng) genValue(t int, lws bool, method string, ms *MsgSpec) string {
 		}
 		return strings.Join(vs, sep)
 	case 9:
-		if r.P(85) {
+		if r.P(85) || sane {
 			return fmt.Sprint(r.N(100000))
 		}
 		return r.Digits()
@@ -536,7 +539,7 @@ func (r *Rng) genValue(t int, lws bool, method string, ms *MsgSpec) string {
 
 // Msg builds a well-formed SIP message.
 func (r *Rng) Msg(o MsgOpts) *MsgSpec {
-	ms := &MsgSpec{CLen: -1}
+	ms := &MsgSpec{CLen: -1, sane: o.Sane}
 	eol := func() string {
 		if o.MixedEOL {
 			return r.EOL()
@@ -630,6 +633,16 @@ func (r *Rng) Msg(o MsgOpts) *MsgSpec {
 		ms.Hdrs = append(ms.Hdrs, h)
 	}
 	ms.Blank = eol()
+	lastRaw := ms.FLine
+	if len(ms.Hdrs) > 0 {
+		lastRaw = ms.Hdrs[len(ms.Hdrs)-1].Raw
+	}
+	if strings.HasSuffix(lastRaw, "\r") && ms.Blank == "\n" {
+		ms.Blank = "\r\n" // CR then LF would read as one CRLF
+	}
+	if ms.Blank == "\r" && len(body) == 0 {
+		ms.Blank = "\r\n" // a lone CR at the very end needs one byte of look-ahead
+	}
 	ms.Body = body
 	var sb strings.Builder
 	sb.WriteString(ms.FLine)
@@ -645,6 +658,8 @@ func (r *Rng) Msg(o MsgOpts) *MsgSpec {
 
 // ---------------------------------------------------------------- mutation
 
+const mutChars = " \t\r\n\"\\;,=<>:@*?&a1"
+
 func (r *Rng) Mutate(s string) string {
 	b := []byte(s)
 	n := 1 + r.N(3)
@@ -654,11 +669,11 @@ func (r *Rng) Mutate(s string) string {
 		case 0:
 			b[p] = byte(r.N(256))
 		case 1:
-			b[p] = " \t\r\n\"\\;,=<>:@*?&"[r.N(17)]
+			b[p] = mutChars[r.N(len(mutChars))]
 		case 2:
 			b = append(b[:p], b[p+1:]...)
 		case 3:
-			c := " \t\r\n\"\\;,=<>:@*?&a1"[r.N(19)]
+			c := mutChars[r.N(len(mutChars))]
 			b = append(b[:p], append([]byte{c}, b[p:]...)...)
 		case 4:
 			b = b[:p]
@@ -772,5 +787,3 @@ func uniqSorted(xs []int) []int {
 	}
 	return out
 }
-
-func genMain(args []string) {}
